@@ -851,7 +851,10 @@ static void* reb_simulation_integrate_raw(void* args){
     if (r->status != REB_STATUS_PAUSED && r->status != REB_STATUS_SCREENSHOT){ // Allow simulation to be paused initially
         r->status = REB_STATUS_RUNNING;
     }
+    // The heartbeat may modify the simulation: like the ones in the loop below, it runs under the server's mutex.
+    reb_server_lock_for_integrate(r);
     reb_run_heartbeat(r);
+    reb_server_unlock_for_integrate(r);
 #ifdef __EMSCRIPTEN__
     double t0 = emscripten_performance_now();
 #endif
